@@ -612,7 +612,7 @@ fn case_calls2<T: Elem>(case: u64, args: &Args, ev: &mut Ev) {
 
 fn main() {
     let args = Args::parse("C18");
-    let n = args.budget(240, 8000);
+    let n = args.budget(240, 30000);
     let ev = run_sharded(&args, n, |case, ev, _log| {
         let f32_ = case % 7 == 6;
         match (case % 4, f32_) {
